@@ -493,3 +493,33 @@ Proof.
   rewrite (oconcat_mono (subtree_f F st) (subtree_f F' st) _ l); [exact H | | exact E].
   intros x rx _ Hx. apply (IH _ _ _ Hx). lia.
 Qed.
+
+(* list.remove on a duplicate-free list *)
+Lemma remove1_absent : forall x l, ~ In x l -> remove1 x l = l.
+Proof.
+  intros x. induction l as [|y t IH]; cbn; intros H; [reflexivity|].
+  destruct (N.eqb y x) eqn:E; [apply N.eqb_eq in E; subst; exfalso; apply H; left; reflexivity|].
+  rewrite IH; [reflexivity | intros Hin; apply H; right; exact Hin].
+Qed.
+Lemma in_remove1 : forall x l r, In r (remove1 x l) -> In r l.
+Proof.
+  intros x. induction l as [|y t IH]; cbn; intros r H; [exact H|].
+  destruct (N.eqb y x); [right; exact H | destruct H as [H|H]; [left; exact H | right; apply IH; exact H]].
+Qed.
+Lemma in_remove1_nodup : forall x l r, NoDup l -> (In r (remove1 x l) <-> In r l /\ r <> x).
+Proof.
+  intros x. induction l as [|y t IH]; cbn; intros r Hnd; [tauto|].
+  inversion Hnd as [|? ? Hy Hnd']; subst. destruct (N.eqb y x) eqn:E.
+  - apply N.eqb_eq in E. subst y. split.
+    + intros H. split; [right; exact H | intros ->; contradiction].
+    + intros [[H|H] Hne]; [congruence | exact H].
+  - apply N.eqb_neq in E. cbn. rewrite (IH r Hnd'). split.
+    + intros [H|[H1 H2]]; [subst; auto | auto].
+    + intros [[H|H] Hne]; [left; exact H | right; auto].
+Qed.
+Lemma nodup_remove1 : forall x l, NoDup l -> NoDup (remove1 x l).
+Proof.
+  intros x. induction l as [|y t IH]; cbn; intros Hnd; [constructor|].
+  inversion Hnd as [|? ? Hy Hnd']; subst. destruct (N.eqb y x); [exact Hnd'|].
+  constructor; [intros H; apply Hy; eapply in_remove1; exact H | apply IH; exact Hnd'].
+Qed.
